@@ -1247,7 +1247,8 @@ func (p *Parser) parseFormatStringOperator() (token.Token, string, string, error
 	}
 	textToken := p.curToken
 	var fontID string
-	var fontIdToken token.Token
+	// Font errors are reported at the text when no explicit font id was written.
+	fontIdToken := textToken
 	if p.fonts == nil {
 		fc, err := LoadFontConfig(p.fontConfigFilepath)
 		if err != nil && p.enableEnvironmentErrors {
